@@ -168,8 +168,30 @@ def replay(path):
             return 0
         return rc if rc in (0, 1, 2) else 1
     if path.endswith(".txt") and "reproduce:" in text:
-        print(text[:3000])
-        return 1
+        # a Miri report: the same interpreter run is repeated against the tree under test (same package, same
+        # seed, run range and shape budget; Miri is deterministic), so the file replays like a trace does
+        import re
+        import common
+        m = re.search(r"# reproduce: \(cd \S+ && cargo \+nightly miri run .*? -p (\S+) .*? -- (.*)\)", text)
+        if not m:
+            print(text[:3000])
+            return 1
+        cmd, cwd = common.miri_cmd(m.group(1))
+        env = dict(common.ENV)
+        env.pop("MIRIFLAGS", None)
+        rc, out, err = run_capture(cmd + m.group(2).split(), cwd=cwd, env=env)
+        if "Undefined Behavior" in err or "memory leaked" in err:
+            print(err[-3000:])
+            print("VIOLATION property=%s replay=%s oracle=MIRI-UB" % (PROP, path))
+            return 1
+        if rc == 1 and "VIOLATION property=" in out:
+            print(out[-3000:])
+            return 1
+        if rc != 0:
+            print(err[-3000:])
+            return 2
+        print("REPLAY-OK Miri ran the recorded range without reporting undefined behaviour or a leak")
+        return 0
     if "cpp-trace" in text.split("\n", 1)[0]:
         import c03_cpp
         return c03_cpp.replay(path)
